@@ -157,7 +157,8 @@ pub fn gen_heap(args: &Args) {
         let texts = [
             "stel a = []; stel i = 0; zolang i < 130 { a = [string(i), 0.5 * float(i), [string(i), 1.5]]; i += 1 }; print(a); a",
             "stel a = [0, 0, 0]; stel i = 0; zolang i < 110 { a[i % 3] = [string(i), float(i) / 2.0]; i += 1 }; print(a); a",
-            "stel s = \"\"; stel i = 0; stel b = []; zolang i < 120 { s = string(i); b = [s, b, string(i + 1)]; i += 1 }; stel n = 0; stel c = b; zolang lengte(c) == 3 { n += lengte(c[0]); c = c[1] }; n",
+            "stel s = \"\"; stel i = 0; stel b = []; zolang i < 120 { s = string(i); b = [s, b, string(i + 1)]; i += 1 }; stel n = 0; stel c = b; zolang lengte(c) == 3 { n += lengte(c[0]) + lengte(c[2]); c = c[1] }; print(b); n",
+            "stel keten = []; stel i = 0; zolang i < 140 { keten = [keten, [string(i), 0.5 * float(i)], string(i * 2)]; i += 1 }; print(keten); stel m = 0; stel c = keten; zolang lengte(c) == 3 { stel paar = c[1]; m += lengte(paar[0]) + lengte(c[2]); c = c[0] }; m",
             "stel i = 0; stel k = [1.5]; zolang i < 160 { k = [k[0] + 0.25, string(k[0]), [float(i)]]; i += 1 }; print(k); k",
             "stel i = 0; stel t = 0; zolang i < 110 { t += lengte([string(i), [float(i), string(i)], 2.5 * float(i)]); i += 1 }; t",
             "functie f() { 1 }; stel t = string(\"abc\"); f(); print(t); stel u = float(2.5); f(); print(u); [t, u]",
